@@ -1,7 +1,7 @@
 (* C11 — the schemas extracted from the current /repo text all match (closed by computation),
    hence every extracted class / helper pair round-trips for all values. *)
 From Coq Require Import ZArith List String Bool.
-From C11 Require Import Prim Schema Tables ProofsPrim ProofsSchema Json ProofsJson Types ProofsTypes.
+From C11 Require Import Prim Schema Tables ProofsPrim ProofsSchema Json ProofsJson Types ProofsTypes JsonText ProofsJsonText JsonSchema ProofsJsonSchema Fixup ProofsFixup.
 From Gen Require Import Schemas.
 Import ListNotations.
 Open Scope Z_scope.
@@ -37,6 +37,31 @@ Proof. vm_compute. reflexivity. Qed.
 
 Lemma formats_agree_table : forallb format_ok format_fields = true /\ forallb keys_ok json_keys = true.
 Proof. split; vm_compute; reflexivity. Qed.
+
+Lemma set_fields_sorted : forallb (fun e : string * string * (bool * bool) => fst (snd e) && snd (snd e)) set_fields = true.
+Proof. vm_compute. reflexivity. Qed.
+
+Definition jentry_ok (e : string * (op * op * list (list Z * jop))) : bool :=
+  ops_match (fst (fst (snd e))) (snd (fst (snd e))) && jschema_ok (snd (snd e)).
+Lemma json_schemas_ok : forallb jentry_ok json_schemas = true.
+Proof. vm_compute. reflexivity. Qed.
+
+(* for every class with an extracted binary schema and a derived JSON schema: both formats decode to the same fields *)
+Lemma extracted_formats_agree :
+  forall ow or ew er of ne nd,
+    (forall t fs bs rest, ow t fs = Some bs -> of t fs = true -> or t (bs ++ rest) = Some (fs, rest)) ->
+    (forall k p bs rest, ew k p = Some bs -> er k (bs ++ rest) = Some (p, rest)) ->
+    (forall v j, ne v = Some j -> nd j = Some v) ->
+    forall name w r s, In (name, (w, r, s)) json_schemas ->
+    forall vs bs j,
+      write_op ow ew w vs = Some (bs, []) -> fits of r vs = Some [] -> jser ne s vs = Some j -> jvalid j ->
+      bind (read_op or er r bs) (fun x => Some (fst x)) = bind (json_loads (json_dumps j)) (jdeser nd s).
+Proof.
+  intros ow or ew er of ne nd Ho He Hn name w r s Hin.
+  pose proof (proj1 (forallb_forall _ _) json_schemas_ok _ Hin) as HM. unfold jentry_ok in HM. cbn in HM.
+  apply andb_prop in HM as [H1 H2].
+  exact (formats_agree_on_values ow or ew er of ne nd Ho He Hn w r s H1 H2).
+Qed.
 
 (* ---- the closed development: concrete recursive codec, no hypotheses left *)
 Definition OW := obj_write json_write.
